@@ -37,7 +37,7 @@ LEVEL_NOTE = ("The theorems are about the Lean model with the fixes D5, D9, D10/
               "formed (C01). Fixed-width integer wrap-around is not modelled (map entries and offsets are unbounded Int).")
 RULE = ("exhaustive: every map of length <= L whose non-marker entries are non-decreasing row numbers of an n-row source, "
         "markers at every subset of positions (quick L=4,n=3; thorough L=6,n=4) x marker in {-1, INVALID_INDEX_32, "
-        "INVALID_INDEX_64} x chunk sizes 1..L+2 x source type in {int32,bool,float64,S3} and indexed strings with "
+        "INVALID_INDEX_64} x chunk sizes 1..L+2 (quick: without L+1) x source type in {int32,bool,float64,S3} and indexed strings with "
         "value_factor in {1,2,8}; the helper kernels on the same maps; plus seeded random maps (to 400 rows quick / 5000 "
         "thorough) with gaps larger than a chunk, whole-chunk marker stretches, leading/trailing/alternating markers, "
         "entries of length 0 and exactly chunksize*value_factor, and the non-streaming helpers with arbitrary filters. "
@@ -164,8 +164,8 @@ def gen_cases(tier, rng):
         for inv in MARKERS:
             m = inst(m0, inv)
             for cs in range(1, L + 3):
-                if tier != "quick" or True:
-                    pass
+                if tier == "quick" and cs == L + 1:
+                    continue                # quick: chunk sizes 1..L and L+2 (one chunk with room to spare)
                 for stype in STYPES:
                     if tier == "thorough" and len(m) == L and (k % 2) and stype in ("float64", "bool"):
                         k += 1
@@ -173,6 +173,8 @@ def gen_cases(tier, rng):
                     k += 1
                     cases.append(mk_stream(stype, SMALL_SRC[stype][:n], m, inv, cs, k))
                 for vf in (1, 2, 8):
+                    if tier == "quick" and cs > 3 and vf == 2:
+                        continue            # quick: with cs > 3 the buffers 2*cs and 8*cs both hold every small entry
                     k += 1
                     cases.append(mk_indexed(SMALL_ENTRIES[:n], m, inv, cs, vf, k))
             # helper kernels, once per (map, marker)
@@ -696,10 +698,8 @@ def select_for_mode(case, mode, tier):
 def _warm_up():
     _env()
     k = 0
-    for inv in MARKERS:
+    for inv in (-1,):                      # numba specialises on types only: every marker is a Python int (int64)
         for md in ("int32", "int64"):
-            if (inv == INV64 and md == "int32"):
-                continue
             m = [0, inv, 1]
             for st in STYPES:
                 for c in (mk_stream(st, SMALL_SRC[st][:3], m, inv, 2, k),
